@@ -9,6 +9,7 @@ import (
 	"bytes"
 	"fmt"
 	"sort"
+	"strings"
 	"sync"
 	"testing"
 	"time"
@@ -261,7 +262,7 @@ func run(r *h.Run, rd round) {
 			if rd.Staggered {
 				time.Sleep(time.Duration(i*150) * time.Microsecond)
 			}
-			p, _, ca, err := b.Connect(fmt.Sprintf("cont%d", i), bh.ConnectOpts{ID: theID, Clean: rd.Cleans[i], AutoAck: true, User: user, Pass: pass}, prep)
+			p, _, ca, err := b.Connect(fmt.Sprintf("cont%d", i), bh.ConnectOpts{ID: theID, Clean: rd.Cleans[i], AutoAck: true, User: user, Pass: pass, Will: &packet.Message{Topic: fmt.Sprintf("will/cont%d", i), Payload: []byte("contender-will"), QOS: packet.QOS(i % 2)}}, prep)
 			results[i] = res{p, ca, err}
 		}(i)
 	}
@@ -423,8 +424,21 @@ func run(r *h.Run, rd round) {
 			if s.Terminated != 1 {
 				fail("terminate-count", fmt.Sprintf("connection %s: Terminate called %d times", s.Name, s.Terminated))
 			}
-		} else if s.Terminated != 0 {
-			fail("terminate-count", fmt.Sprintf("surviving connection %s was terminated", s.Name))
+			// a contender that the backend had set up and that was displaced in turn
+			// (possibly before its own CONNACK was written) is an older connection like
+			// any other: its will is published, once
+			if strings.HasPrefix(s.Name, "cont") {
+				if n := willCount(s, "will/"+s.Name); n != 1 {
+					fail("displaced-contender-will", fmt.Sprintf("connection %s was set up by the backend and displaced by a later contender; its will was published %d times", s.Name, n))
+				}
+			}
+		} else {
+			if s.Terminated != 0 {
+				fail("terminate-count", fmt.Sprintf("surviving connection %s was terminated", s.Name))
+			}
+			if n := willCount(s, "will/"+s.Name); n != 0 {
+				fail("survivor-will", fmt.Sprintf("the will of the surviving connection %s was published %d times", s.Name, n))
+			}
 		}
 	}
 	// the old connection's will: published exactly once unless it was clean... (accepted client, no DISCONNECT)
@@ -511,9 +525,19 @@ func boolInt(b bool) int {
 	return 0
 }
 
+func willCount(s bh.ClientInfo, topic string) int {
+	n := 0
+	for _, m := range s.Publishes {
+		if m.Topic == topic {
+			n++
+		}
+	}
+	return n
+}
+
 func TestCheck(t *testing.T) {
 	r := h.New("C13", "exploration")
-	r.Rule("rounds of 2-8 simultaneous CONNECTs with one client id (clean/unclean mixed, started together or staggered by 150us) against an old connection that is absent / idle / mid QoS 2 handshake / sending its PUBREL at that very moment / parked waiting for a publish token / dying by itself at the same moment / blocked in a send (bounded wire, peer not reading), in a fifth of the idle / mid-handshake rounds a connection attempt with the same id and a wrong password is refused first (credentials configured), with a publisher pumping numbered QoS 1 messages towards the id and backend-boundary perturbation; monitors: Setup/Terminate interval bookkeeping, CONNACK pre-send assertion on Closed() of every older client of the id, PINGREQ liveness probe of all contenders (exactly one survivor), session-present replay in recorded Setup order, Terminate counts, displaced will, backend bookkeeping snapshot, no loss / no second non-duplicate delivery when all parties are persistent. Non-trivial = rounds in which >= 2 Setup calls for the id succeeded; distinct by round parameters; distinct Setup orders are counted separately")
+	r.Rule("rounds of 2-8 simultaneous CONNECTs with one client id (clean/unclean mixed, started together or staggered by 150us) against an old connection that is absent / idle / mid QoS 2 handshake / sending its PUBREL at that very moment / parked waiting for a publish token / dying by itself at the same moment / blocked in a send (bounded wire, peer not reading), in a fifth of the idle / mid-handshake rounds a connection attempt with the same id and a wrong password is refused first (credentials configured), with a publisher pumping numbered QoS 1 messages towards the id and backend-boundary perturbation; monitors: Setup/Terminate interval bookkeeping, CONNACK pre-send assertion on Closed() of every older client of the id, PINGREQ liveness probe of all contenders (exactly one survivor), session-present replay in recorded Setup order, Terminate counts, displaced will (of the old connection and of every contender that was set up and displaced in turn, also before its own CONNACK), backend bookkeeping snapshot, no loss / no second non-duplicate delivery when all parties are persistent. Non-trivial = rounds in which >= 2 Setup calls for the id succeeded; distinct by round parameters; distinct Setup orders are counted separately")
 	r.Assume("the blocked-in-send variant is the recorded known finding (takeover deadlock); its detection uses a 1.5 s bound confirmed by two goroutine profiles")
 	rng := r.Rand("c13")
 	n := r.Pick(1200, 25000)
